@@ -58,6 +58,9 @@ func runC12Stream(rc *RunCtx) {
 	hs := make([]*handle, nH)
 	delivered := map[int][]int{} // conn id -> handles
 	rc.Phase = "acquire"
+	if rc.F.Draw(4) == 1 {
+		w.AcceptErr = []int{100, 400}[rc.F.Draw(2)]
+	}
 	if G.Draw(4) == 0 {
 		// a failed acquisition first (the address is briefly unavailable): it must leave nothing behind
 		w.ListenFail = func(network, addr string) error { return syscall.EADDRINUSE }
@@ -80,6 +83,12 @@ func runC12Stream(rc *RunCtx) {
 		for {
 			invokedAfterClose := h.closeRet
 			c, err := h.ln.AcceptStream()
+			if err != nil && !errors.Is(err, net.ErrClosed) && w.AcceptErr > 0 {
+				// an injected transient accept error (ECONNABORTED) surfaces on whichever
+				// handle took it; the handle stays usable
+				rc.Probe("transient_accept_error_delivered")
+				continue
+			}
 			if err != nil {
 				if !errors.Is(err, net.ErrClosed) {
 					rc.Failf("accept-error:"+fmt.Sprintf("%T", err), "handle %d: AcceptStream returned unexpected error %v", i, err)
@@ -97,8 +106,7 @@ func runC12Stream(rc *RunCtx) {
 				rc.Probe("accept_after_close_returned_conn")
 				rc.Failf("accept-after-close-delivered", "handle %d: AcceptStream invoked after Close had returned delivered a connection instead of failing with net.ErrClosed", i)
 			}
-			tc := c.(*simnet.TCPConn)
-			id := tc.Rec.ID
+			id := connIDOf(c)
 			h.got = append(h.got, id)
 			delivered[id] = append(delivered[id], i)
 			c.Close()
@@ -289,6 +297,9 @@ func runC12Stream(rc *RunCtx) {
 			}
 		})
 		c, err := ln.AcceptStream()
+		for n := 0; err != nil && !errors.Is(err, net.ErrClosed) && w.AcceptErr > 0 && n < 50; n++ {
+			c, err = ln.AcceptStream() // injected transient accept error: accept again
+		}
 		if err != nil {
 			rc.Failf("reacquire-accept-failed", "after full release and re-acquisition AcceptStream failed: %v", err)
 		} else {
